@@ -87,8 +87,51 @@ func wantStencil(ids []ref.ID, offs [][3]int64) map[string]struct{} {
 	return w
 }
 
+// c08Huge (thorough tier only, ~1 GB, seconds): one N-layer call with more than 2^22 distinct result IDs, then small
+// queries inside and beside its result. State that a library keeps from a huge call must not change later answers.
+func c08Huge(c *core.Case) {
+	r := c.R
+	c.Tag("small-queries-after-2^22-result-call")
+	c.NonTrivial()
+	var big []string
+	var ids []ref.ID
+	for i := int64(0); i < 5800; i++ {
+		id := ref.ID{H: 20, X: 100 + 20*(i%80), Y: 100 + 20*(i/80), V: 20, F: 3 + c.I}
+		ids = append(ids, id)
+		big = append(big, id.Ext())
+	}
+	c.KS(big[0], big[len(big)-1])
+	var obs []string
+	c.Desc = func() any { return map[string]any{"huge_call": "5800 voxels 20 apart, layers (4,4)", "observed": obs} }
+	got, err := operated.GetNspatialIdsAroundVoxcels(big, 4, 4)
+	c.Call()
+	want := 5800 * (9*9*9 - 1)
+	obs = append(obs, fmt.Sprintf("huge call: %d IDs, err %v", len(got), err))
+	if err != nil || len(got) != want {
+		c.Fail("nlayer-count", nil, "5800 separated voxels with layers (4,4): %d IDs (err %v), want %d", len(got), err, want)
+		return
+	}
+	got = nil
+	for k := 0; k < 40; k++ {
+		q := ref.Shift(ids[r.Intn(len(ids))], r.Range(-5, 5), r.Range(-5, 5), r.Range(-5, 5))
+		hl, vl := r.Range(0, 2), r.Range(0, 2)
+		g, err := operated.GetNspatialIdsAroundVoxcels([]string{q.Ext()}, hl, vl)
+		c.Call()
+		gs, dup := ref.SetOfExt(g)
+		missing, extra, same := ref.SameSet(gs, wantStencil([]ref.ID{q}, stencilBox(hl, vl)))
+		if err != nil || !same || dup {
+			c.Fail("nlayer-set-after-huge-call", nil, "GetNspatialIdsAroundVoxcels([%s],%d,%d) after a call with %d result IDs: %d IDs, err %v, missing %v, unexpected %v", q.Ext(), hl, vl, want, len(g), err, missing, extra)
+			return
+		}
+	}
+}
+
 func runC08(c *core.Case) {
 	r := c.R
+	if c.Tier == "thorough" && c.I == c08Directed {
+		c08Huge(c)
+		return
+	}
 	if c.I >= c08Directed && r.P(0.02) { // consecutive neighbourhood queries on two IDs that collide under a common 32-bit string hash
 		pairs := hashCollisionPairs()
 		if len(pairs) > 0 {
@@ -239,6 +282,17 @@ func runC08(c *core.Case) {
 		list[n-2] = ref.Shift(list[0], 1, 0, 0) // overlapping neighbourhoods far apart in the list
 		hl, vl = 1, 0
 		c.Tag("very-long-list")
+	}
+	if !forced && r.P(0.03) {
+		// two voxels at different horizontal zooms whose (zoom, index) pairs coincide under a packed integer key
+		if a, b, ok := packedAliasID(r); ok {
+			list = []ref.ID{a, b}
+			if r.Bool() {
+				list = append(list, id)
+			}
+			hl, vl = r.Range(0, 2), r.Range(0, 1)
+			c.Tag("packed-key-alias-pair")
+		}
 	}
 	in := ref.Exts(list)
 	if !forced && r.P(0.02) {
